@@ -31,4 +31,19 @@ def gcBalanced2 : Acc :=
 /-- strings over A, C, G, T. -/
 def IsAcgt (s : List Char) : Prop := ∀ c ∈ s, (nucIdx c).isSome = true
 
+/-- `s` is a walk of `a` from `v`: every symbol is a live nucleotide of the vertex reached. -/
+def isWalk (a : Acc) : Int → List Char → Bool
+  | _, [] => true
+  | v, c :: s => match a.next v c with
+    | some t => isWalk a t s
+    | none => false
+
+/-- the vertex reached after following `s` from `v` (meaningful when `isWalk a v s`). -/
+def walkEnd (a : Acc) : Int → List Char → Int
+  | v, [] => v
+  | v, c :: s => walkEnd a (a.ent v ((nucIdx c).getD 0)) s
+
+/-- strict Python string order. -/
+def strLt (x y : List Char) : Prop := strLe x y = true ∧ x ≠ y
+
 end Dsw
